@@ -1,7 +1,7 @@
 -------------------------- MODULE MC_WidthWriters --------------------------
 EXTENDS WidthWriters, Json
-WidthsQ == {-1, 0, 1, 2, 4}
-WidthsT == {-1, 0, 1, 2, 3, 5}
+WidthsQ == {-1, 0, 1, 2, 4, 12, 34}    \* 12 and 34: long runs of padding (block-wise fill implementations)
+WidthsT == {-1, 0, 1, 2, 3, 5, 11, 33, 65}
 RECURSIVE SetToSeq(_)
 SetToSeq(S) == IF S = {} THEN <<>> ELSE LET x == CHOOSE y \in S : \A z \in S : y <= z IN <<x>> \o SetToSeq(S \ {x})
 Emit == stage = 3 => PrintT(<<"REPLAY", ToJson([text |-> text, cuts |-> SetToSeq(cuts), prm |-> prm, script |-> script,
